@@ -49,6 +49,9 @@ func NewCLIManager(pluginFS dir.SysFS) *CLIManager {
 //
 // If the plugin is not found, the error is of type os.ErrNotExist.
 func (m *CLIManager) Get(ctx context.Context, name string) (plugin.Plugin, error) {
+	if err := validatePluginName(name); err != nil {
+		return nil, err
+	}
 	pluginPath := path.Join(name, binName(name))
 	path, err := m.pluginFS.SysPath(pluginPath)
 	if err != nil {
@@ -148,6 +151,9 @@ func (m *CLIManager) Install(ctx context.Context, installOpts CLIInstallOptions)
 			return nil, nil, fmt.Errorf("input file %s is not executable", pluginExecutableFileName)
 		}
 	}
+	if err := validatePluginName(pluginName); err != nil {
+		return nil, nil, err
+	}
 	// validate and get new plugin metadata
 	newPlugin, err := NewCLIPlugin(ctx, pluginName, pluginExecutableFile)
 	if err != nil {
@@ -210,6 +216,9 @@ func (m *CLIManager) Install(ctx context.Context, installOpts CLIInstallOptions)
 // Uninstall uninstalls a plugin on the system by its name.
 // If the plugin dir does not exist, os.ErrNotExist is returned.
 func (m *CLIManager) Uninstall(ctx context.Context, name string) error {
+	if err := validatePluginName(name); err != nil {
+		return err
+	}
 	pluginDirPath, err := m.pluginFS.SysPath(name)
 	if err != nil {
 		return err
@@ -218,6 +227,15 @@ func (m *CLIManager) Uninstall(ctx context.Context, name string) error {
 		return err
 	}
 	return os.RemoveAll(pluginDirPath)
+}
+
+// validatePluginName checks that name is a single file name, so that it can
+// never refer to anything outside of the plugin directory.
+func validatePluginName(name string) error {
+	if !file.IsValidFileName(name) {
+		return fmt.Errorf("invalid plugin name %q: plugin name needs to follow [a-zA-Z0-9_.-]+ format", name)
+	}
+	return nil
 }
 
 // parsePluginFromDir checks if a dir is a valid plugin dir which contains
